@@ -69,6 +69,13 @@ class Real(object):
             elif op == "delkey":
                 ev.update(k=e["k"])
                 del sec[e["k"]]
+            elif op == "setidx":
+                it, nid = self.new(e["n"])
+                ev.update(n=e["n"], nid=nid, i=e["i"])
+                sec[e["i"]] = it
+            elif op == "delslice":
+                ev.update(a=e["a"], b=e["b"])
+                del sec[e["a"]:e["b"]]
             elif op == "setitem":
                 it, nid = self.new(e["n"])
                 ev.update(k=e["k"], n=e["n"], nid=nid)
@@ -324,13 +331,16 @@ def random_histories(ctx, rng, n, maxops, names, kind="header", read_case=None):
         for _ in range(rng.randint(1, maxops)):
             sess = [i["s"] for i in real.project()]
             keys = sess + [s.swapcase() for s in sess] + list(names) + ["Z", "UNKNOWN"]
-            op = rng.choice(["append", "append", "insert", "insert", "delidx", "delkey", "setitem", "setvalue", "get", "get"])
+            op = rng.choice(["append", "append", "insert", "insert", "delidx", "delkey", "setitem", "setvalue", "get", "get",
+                             "setidx", "delslice"])
             e = {"op": op}
             ln = len(sess)
-            if op in ("append", "insert", "setitem"):
+            if op in ("append", "insert", "setitem", "setidx"):
                 e["n"] = rng.choice(names)
-            if op in ("insert", "delidx"):
+            if op in ("insert", "delidx", "setidx"):
                 e["i"] = rng.randint(-ln - 1, ln + 1)
+            if op == "delslice":
+                e["a"], e["b"] = rng.randint(-ln - 1, ln + 1), rng.randint(-ln - 1, ln + 1)
             if op in ("delkey", "setitem", "setvalue", "get"):
                 e["k"] = rng.choice(keys)
             if op == "setvalue":
